@@ -34,6 +34,8 @@ type rvalue struct { // reflect.Value model
 	v    Value
 	t    types.Type
 	addr *Value // set when the value was obtained through Elem() of a pointer (addressable)
+	// obtained through an unexported struct field: Interface() panics, CanInterface() is false
+	unexported bool
 }
 
 type rtype struct{ t types.Type }
@@ -168,6 +170,7 @@ func registerEnv(ip *Interp) {
 		i := a[0].(Iface)
 		return &Native{&rvalue{v: i.V, t: i.T}}
 	})
+	ip.regReflectModel()
 	ip.allowFn["github.com/octohelm/x/reflect.Indirect"] = true
 	// (reflect.Value).Pointer of a func value: the code pointer - equal for closures
 	// made from the same function literal, distinct otherwise
@@ -201,35 +204,6 @@ func registerEnv(ip *Interp) {
 	ip.regStub("(*internal/godebug.Setting).Value", func(ip *Interp, fr *frame, a []Value) Value {
 		return mkStr(ip.ctx, "")
 	})
-	ip.reg("(reflect.Value).Kind", func(ip *Interp, fr *frame, a []Value) Value {
-		rv := a[0].(*Native).V.(*rvalue)
-		k := uint64(0) // Invalid
-		if rv.t != nil {
-			switch rv.t.Underlying().(type) {
-			case *types.Pointer:
-				k = 22
-			case *types.Struct:
-				k = 25
-			case *types.Interface:
-				k = 20
-			default:
-				panic(unsupported("reflect.Kind of " + rv.t.String()))
-			}
-		}
-		return ip.ctx.BV(k, 64)
-	})
-	ip.reg("(reflect.Value).Elem", func(ip *Interp, fr *frame, a []Value) Value {
-		rv := a[0].(*Native).V.(*rvalue)
-		pt, ok := rv.t.Underlying().(*types.Pointer)
-		if !ok {
-			panic(unsupported("reflect.Value.Elem of non-pointer"))
-		}
-		p := rv.v.(*Value)
-		if p == nil {
-			return &Native{&rvalue{}}
-		}
-		return &Native{&rvalue{v: *p, t: pt.Elem(), addr: p}}
-	})
 	ip.reg("(reflect.Value).Set", func(ip *Interp, fr *frame, a []Value) Value {
 		dst := a[0].(*Native).V.(*rvalue)
 		src := a[1].(*Native).V.(*rvalue)
@@ -246,22 +220,11 @@ func registerEnv(ip *Interp) {
 		ip.store(dst.t, dst.addr, copyVal(val))
 		return nil
 	})
-	ip.reg("(reflect.Value).Type", func(ip *Interp, fr *frame, a []Value) Value {
-		rv := a[0].(*Native).V.(*rvalue)
-		if rv.t == nil {
-			ip.rtPanic("reflect: call of reflect.Value.Type on zero Value")
-		}
-		return Iface{T: rtypeMarker, V: &Native{&rtype{rv.t}}}
-	})
 	ip.reg("reflect.New", func(ip *Interp, fr *frame, a []Value) Value {
-		t := a[0].(Iface).V.(*Native).V.(*rtype).t
+		t := rtypeOf(a[0])
 		p := new(Value)
 		*p = ip.zero(t)
 		return &Native{&rvalue{v: p, t: types.NewPointer(t)}}
-	})
-	ip.reg("(reflect.Value).Interface", func(ip *Interp, fr *frame, a []Value) Value {
-		rv := a[0].(*Native).V.(*rvalue)
-		return Iface{T: rv.t, V: rv.v}
 	})
 
 	// ---- go/parser, formatter (contract stubs)
